@@ -23,6 +23,7 @@ func init() {
 		Run: runC12,
 		Controls: []Control{
 			{Name: "refresh-window-clamped-to-ecmp-count", File: "routingtable/locRIB/loc_rib.go", Old: "\t\t\tn = opts.MaxPaths\n\t\t\tn = uint(math.Min(int(n), len(r.Paths())))\n\t\t}\n\n\t\tclient.RefreshRoute(", New: "\t\t\tn = opts.MaxPaths\n\t\t\tn = uint(math.Min(int(n), int(r.ECMPPathCount())))\n\t\t}\n\n\t\tclient.RefreshRoute(", Expect: "refresh-covers-the-clients-window"},
+			{Name: "removal-by-decision-equality", File: "route/route.go", Old: "\t\tif paths[j].Compare(remove) {\n", New: "\t\tif paths[j].Equal(remove) {\n", Expect: "decision-equality-is-not-identity"},
 			{Name: "refresh-skipped-for-empty-table", File: "routingtable/adjRIBOut/adj_rib_out.go", Old: "\ta.exportFilterChainPending = c\n\ta.rib.RefreshClient(a)\n", New: "\ta.exportFilterChainPending = c\n\tif a.rt.GetRouteCount() > 0 {\n\t\ta.rib.RefreshClient(a)\n\t}\n", Expect: "refresh-is-unconditional"},
 			{Name: "policy-verdict-marked-on-stored-path", File: "routingtable/adjRIBIn/adj_rib_in.go", Old: "\tp, reject := a.exportFilterChain.Process(pfx, p)\n\tif reject {\n\t\tp.HiddenReason = route.HiddenReasonFilteredByPolicy\n\t\treturn nil\n\t}\n\n\tfor _, client := range a.clientManager.Clients() {\n\t\tclient.AddPath(pfx, p)\n\t}\n", New: "\tfiltered, reject := a.exportFilterChain.Process(pfx, p)\n\tif reject {\n\t\tp.HiddenReason = route.HiddenReasonFilteredByPolicy\n\t\treturn nil\n\t}\n\n\tfor _, client := range a.clientManager.Clients() {\n\t\tclient.AddPath(pfx, filtered)\n\t}\n", Expect: "policy-verdict-not-stored"},
 			{Name: "replace-selects-on-a-copy", File: "routingtable/locRIB/loc_rib.go", Old: "\tr.PathSelection()\n\ta.propagateChanges(oldRoute, r)\n}\n", New: "\tnewRoute := r.Copy()\n\tnewRoute.PathSelection()\n\ta.propagateChanges(oldRoute, newRoute)\n}\n", Expect: "replacement-reranks-stored-route"},
@@ -161,6 +162,7 @@ func behNames(fs []*core.Fn) string {
 }
 
 func runC12(c *core.Ctx) {
+	decisionEqualityIsNotIdentity(c, "decision-equality-is-not-identity")
 	refreshIsUnconditional(c, "refresh-is-unconditional")
 	eqNotSubset(c, "equality-is-not-inclusion")
 	selectionBeforePropagation(c, "replacement-reranks-stored-route", 3)
